@@ -333,6 +333,8 @@ def run(ck, ctx):
     names = sorted((s["rv"]["adt"].split("::")[-1], tuple(s["rv"].get("field_names", []))) for s in agg)
     ck.ob("C18.5", "aggregates", names == [("DebugSymbols", ("line_map", "src_info")), ("ObjectFile", ("block_map", "sym")), ("SymbolTable", ("label_map", "rel_map", "debug_symbols"))],
           "the reader rebuilds %s" % names, dw)
+    ck.include("C24", ctx, "C18.6", {"C24.1", "C24.2"}, "LineSymbolMap::new (used by the reader) accepts what the producer records")
+    ck.include("C25", ctx, "C18.7", {"C25.1"}, "the line table is written from raw_line_span/nl_indices and the source re-indexed by from_string")
     ck.assume("str::escape_default followed by unescaper::unescape is the identity on every string (library behaviour; unescaper 0.1.5 read by hand)")
     ck.assume("labels contain no divider, no leading '#', '.', '=' and no surrounding blanks (identifier tokens, C03/C05)")
     ck.assume("the empty-symbol-table-without-debug case is the one lossy spot (not producible by assemble*, see C17)")
